@@ -195,6 +195,8 @@ pub enum Spec {
     /// the repository's own accepted grammar files (examples, parser.kiki), through the reference front end,
     /// and their neighbourhoods of `k` edits (capped)
     Files { k: usize, cap: usize },
+    /// the name-relation space of names.rs: all ordered pairs of names of at most 1+`extra` characters in all role pairs
+    Names { extra: usize },
 }
 
 impl Spec {
@@ -204,6 +206,7 @@ impl Spec {
             Spec::Nbh { seed, k, .. } => format!("Nbh({seed},{k})"),
             Spec::PSpace { max_fields, recursion } => format!("PresentationSpace(fields<={max_fields}{})", if *recursion { ",recursive" } else { "" }),
             Spec::Files { k, .. } => format!("RepositoryGrammars(+{k} edits)"),
+            Spec::Names { extra } => format!("NameRelations(names<={} chars, {} role pairs)", 1 + extra, crate::names::ROLE_PAIRS.len()),
         }
     }
 }
@@ -346,6 +349,24 @@ pub fn sweep(specs: &[Spec], budget_s: f64, per_case: &(dyn Fn(&Case, u64, &mut 
                     })
                     .collect();
                 (accs, json!({"files": names, "cases": cases.len()}))
+            }
+            Spec::Names { extra } => {
+                let cases: Vec<Case> = crate::names::relation_sources(*extra).par_iter().filter_map(|s| case_from_source(s)).collect();
+                let accs: Vec<Acc> = cases
+                    .par_iter()
+                    .enumerate()
+                    .map(|(i, case)| {
+                        let mut acc = Acc::default();
+                        if over() {
+                            capped.store(true, std::sync::atomic::Ordering::Relaxed);
+                            return acc;
+                        }
+                        per_case(case, (i as u64) | (1 << 59), &mut acc);
+                        acc.inc("grammars");
+                        acc
+                    })
+                    .collect();
+                (accs, json!({"valid_files_of_the_space": cases.len()}))
             }
         };
         let mut sacc = Acc::default();
@@ -770,12 +791,12 @@ pub fn reference_or_note(case: &Case, acc: &mut Acc) -> Option<Reference> {
 fn specs_for(tier: Tier) -> Vec<Spec> {
     match tier {
         Tier::Quick => {
-            let mut v = vec![g(2, 2, 3, 3), g(2, 0, 3, 3), g(2, 1, 3, 3), g(1, 3, 3, 2), Spec::Files { k: 1, cap: 250 }];
+            let mut v = vec![g(2, 2, 3, 3), g(2, 0, 3, 3), g(2, 1, 3, 3), g(1, 3, 3, 2), Spec::Files { k: 1, cap: 250 }, Spec::Names { extra: 2 }];
             v.extend(all_seed_nbh(1, 1, 100_000));
             v
         }
         Tier::Thorough => {
-            let mut v = vec![g(2, 2, 3, 3), g(2, 3, 4, 2), g(3, 2, 4, 2), gsym(2, 2, 4, 3), g(1, 3, 4, 3), gsym(3, 3, 3, 2), Spec::Files { k: 1, cap: 3000 }];
+            let mut v = vec![g(2, 2, 3, 3), g(2, 3, 4, 2), g(3, 2, 4, 2), gsym(2, 2, 4, 3), g(1, 3, 4, 3), gsym(3, 3, 3, 2), Spec::Files { k: 1, cap: 3000 }, Spec::Names { extra: 3 }];
             v.extend(all_seed_nbh(2, 1, 60_000));
             v
         }
